@@ -2,6 +2,7 @@
 (gsa/absint.py) on concrete integer instantiations, plus structural rules (DESIGN 4/C10)."""
 import json
 import os
+import re
 
 from gsa import absint, facts, ir, paths
 from gsa.facts import Unit, rel, AnalysisBroken
@@ -114,6 +115,7 @@ def run(tier, replay=None):
     run_fresh_init(chk, F)
     run_isprime(chk, F, tier)
     run_partial_inverse(chk, F)
+    run_idempotents(chk, F)
     chk.assumptions += ['clang 14 parser/Sema and its implicit-conversion nodes', 'operands of the arithmetic helpers '
                         'are reduced (the property quantifies over reduced operands)', 'helper contracts of '
                         'tables/c10.json are each verified on the helper itself']
@@ -175,7 +177,9 @@ def run_refusal(chk, F):
         chk.ob('E2-refusal', '%s::%s refuses characteristics 0 and 1' % (cname, fname), where, bool(small),
                '' if small else 'no guard `if (%s <= 1) throw` (true for 0 and 1, false for 2) is left' % var,
                key='E2ref|%s::%s|small' % (cname, fname))
-        # inside the inverse loop: `if (mult == characteristic) throw`  (a composite modulus has a zero divisor)
+        # composite characteristics are refused by one of two mechanisms:
+        #  (A) the inverse search throws when a multiple of an element equals the characteristic (a zero divisor);
+        #  (B) a trial division `for (d = 2; BOUND; ++d) if (characteristic % d == 0) throw` run before the table
         comp = []
         for loop in ir.walk(f['body']):
             if loop.get('k') not in ('WhileStmt', 'DoStmt'):
@@ -185,19 +189,54 @@ def run_refusal(chk, F):
                     c = ir.skipcasts(x.get('cond'))
                     if c is not None and c.get('op') == '==' and var in (ir.show(c['c'][0]), ir.show(c['c'][-1])):
                         comp.append(x)
-        chk.ob('E2-refusal', '%s::%s refuses composite characteristics' % (cname, fname), where, bool(comp),
-               '' if comp else 'the inverse-table loop no longer throws when a multiple of an element equals the '
-               'characteristic (the only place a composite modulus is detected)',
+        trial = []
+        for loop in ir.walk(f['body']):
+            if loop.get('k') != 'ForStmt':
+                continue
+            for x in ir.walk(loop.get('body')):
+                if x.get('k') == 'IfStmt' and _has_throw(x.get('then')):
+                    t = ir.show(x.get('cond')).replace(' ', '').replace('(', '').replace(')', '')
+                    m = re.match(r'^%s%%(\w+)==0$' % re.escape(var), t)
+                    if m:
+                        trial.append((loop, m.group(1)))
+        why = ''
+        ok_comp = bool(comp)
+        if not comp and trial:
+            loop, d = trial[0]
+            bound = ir.show(loop.get('cond')).replace(' ', '').replace('(', '').replace(')', '')
+            good = ('%s*%s<=%s' % (d, d, var), '%s<=%s/%s' % (d, var, d), '%s<%s' % (d, var), '%s<=%s-1' % (d, var),
+                    '%s<=%s/2' % (d, var), '%s*2<=%s' % (d, var), '2*%s<=%s' % (d, var))
+            short = ('%s*%s<%s' % (d, d, var), '%s<%s/%s' % (d, var, d))
+            starts2 = ir.show(loop.get('init')).replace(' ', '').endswith('=2')
+            if bound in good and starts2:
+                ok_comp = True
+            elif bound in short:
+                why = ('the trial division stops at `%s`: a divisor equal to the square root is never tried, the '
+                       'square of a prime (4, 9, 25, ...) is accepted as a characteristic' % ir.show(loop.get('cond')))
+            else:
+                raise AnalysisBroken('C10: %s::%s refuses composites by a trial division whose bound `%s` (start %s) '
+                                     'the rule does not know' % (cname, fname, ir.show(loop.get('cond')),
+                                                                 ir.show(loop.get('init'))))
+        elif not comp:
+            why = ('neither the inverse-table loop throws when a multiple of an element equals the characteristic nor '
+                   'a trial division precedes it: a composite modulus is not detected')
+        chk.ob('E2-refusal', '%s::%s refuses composite characteristics' % (cname, fname), where, ok_comp, why,
                key='E2ref|%s::%s|composite' % (cname, fname))
         # the table is filled for every residue 1..p-1
         loops = [x for x in ir.walk(f['body']) if x.get('k') == 'ForStmt' and
-                 ir.contains(x.get('body'), lambda y: y.get('k') in ('WhileStmt', 'DoStmt'))]
+                 ir.contains(x.get('body'), lambda y: y.get('k') in ir.MEMBER_KINDS + ('DeclRefExpr',) and
+                             (y.get('n') or '').startswith('inverse')) and not any(x is t_[0] for t_ in trial)]
         ok = False
         for lp in loops:
-            init = ir.show(lp.get('init'))
+            init = ir.show(lp.get('init')).replace(' ', '')
             cond = ir.skipcasts(lp.get('cond'))
-            if cond is not None and cond.get('op') == '<' and ir.show(cond['c'][1]) == var and init.endswith('= 1'):
-                ok = True
+            if cond is not None and cond.get('op') == '<' and ir.show(cond['c'][1]) == var:
+                if init.endswith('=1'):
+                    ok = True
+                if init.endswith('=2') and ir.contains(f['body'], lambda y: y.get('k') in (
+                        'BinaryOperator', 'CXXOperatorCallExpr') and y.get('op') == '=' and
+                        re.match(r'^inverse_?\[1\]$', ir.show(y['c'][-2]).replace(' ', ''))):
+                    ok = True
         chk.ob('E2-refusal', '%s::%s visits every residue 1..p-1' % (cname, fname), where, ok,
                '' if ok else 'the loop over the residues is not `for (i = 1; i < %s; ...)`' % var,
                key='E2ref|%s::%s|allresidues' % (cname, fname))
@@ -441,6 +480,13 @@ def run_fresh_init(chk, F):
                             'init_reads_ok'].get('%s::%s' % (cname, fname), []):
                         if kind == 'EREAD' and fld + '[' + parts[2] + ']' in fresh:
                             continue   # this element was written earlier in the same call
+                        if kind == 'EREAD':
+                            # recurrence over an ascending fill: inverse_[p % i] has an index below i, written by an
+                            # earlier iteration of the loop that writes inverse_[i] (and inverse_[1] before the loop)
+                            mm = re.match(r'^\(?.+%\s*(\w+)\)?$', parts[2])
+                            if mm and (fld + '[1]') in fresh and any(
+                                    t2.startswith('EWRITE:%s:%s' % (fld, mm.group(1))) for t2, _n in p.events):
+                                continue
                         if bad is None:
                             bad = (fld, node, kind)
                 if bad:
@@ -543,3 +589,116 @@ def run_partial_inverse(chk, F):
         ok_c = len(quots) >= 1 and all(dep(q[0], sub) for q in quots)
         chk.ob('E7-partial-inverse', '%s::%s: T is `%s` divided by the gcd' % (cls, f['name'], sub), where, ok_c,
                '' if ok_c else 'quotients by the gcd: %s' % quots, key='E7|%s::%s|quotient' % (cls, f['name']))
+
+
+# ------------------------------------------------------------------ CRT idempotents: (Q / p)^(p - 1) mod Q
+
+def _fold(e, env):
+    """constant folding of a small integer expression over the names in env (None when something else occurs)"""
+    e = ir.skipcasts(e)
+    while e is not None and e.get('k') == 'ParenExpr' and e.get('c'):
+        e = ir.skipcasts(e['c'][0])
+    if e is None:
+        return None
+    if e.get('k') == 'IntegerLiteral':
+        return int(e['v'])
+    if e.get('k') == 'DeclRefExpr':
+        return env.get(e.get('n'))
+    if e.get('k') in ('BinaryOperator', 'CXXOperatorCallExpr') and e.get('op') in ('+', '-', '*', '/', '>>', '<<', '%') \
+            and len(e.get('c') or []) >= 2:
+        a, b = _fold(e['c'][-2], env), _fold(e['c'][-1], env)
+        if a is None or b is None:
+            return None
+        try:
+            return {'+': a + b, '-': a - b, '*': a * b, '/': a // b if b else None, '>>': a >> b, '<<': a << b,
+                    '%': a % b if b else None}[e['op']]
+        except (ValueError, TypeError):
+            return None
+    return None
+
+
+def run_idempotents(chk, F):
+    """E8-idempotent: the partial multiplicative identity of the prime p is (Q/p)^(p-1) mod Q (Fermat: 1 modulo p, 0
+    modulo the other primes). The small-characteristic classes compute it by square-and-multiply; the loop is
+    recognised as that idiom (`if (exp & 1) r = r * base; exp >>= 1; base = base * base` while exp > 0), which
+    computes r0 * base0^exp0. With base0 = (Q/p)^(2^k) after k squarings before the loop and r0 = 1, the exponent
+    obtained is 2^k * exp0: accepted when k = 0 and exp0 is literally `p - 1`; any other start is compared with p - 1
+    by folding the expression for the first primes (a mismatch is a violation, agreement on all of them is not a
+    proof: analysis broken). The GMP classes: mpz_powm_ui(x, x, p - 1, Q)."""
+    n = 0
+    units = [f for f in F.functions if f.get('inst') in (0, 2) and f.get('body') is not None and FIELD_DIR in f['file']]
+    for v in F.staticvars:
+        if v.get('init') is not None and FIELD_DIR in v['file'] and '<' not in v['qual'].split('::')[-2]:
+            units.append({'body': v['init'], 'file': v['file'], 'line': v['line'], 'name': v['name'],
+                          'clsname': v['qual'].split('::')[-2], 'qual': v['qual']})
+    for f in units:
+        for loop in ir.walk(f['body']):
+            if loop.get('k') != 'WhileStmt':
+                continue
+            cond = ir.show(loop.get('cond')).replace(' ', '').strip('()')
+            m = re.match(r'^(\w+)>0$', cond)
+            if not m:
+                continue
+            ev = m.group(1)
+            body = loop.get('body')
+            bt = [ir.show(x).replace(' ', '').replace('(', '').replace(')', '') for x in (body.get('c') or [])]
+            has_sq = any(t.startswith('base=_multiplybase,base') for t in bt)
+            has_shift = any(t in ('%s=%s>>1' % (ev, ev), '%s>>=1' % ev) for t in bt)
+            mul = [x for x in ir.walk(body) if x.get('k') == 'IfStmt' and
+                   ir.show(x.get('cond')).replace(' ', '').replace('(', '').replace(')', '') in ('%s&1' % ev,)]
+            if not (has_sq and has_shift and mul):
+                continue
+            n += 1
+            cls = f.get('clsname') or f['qual'].split('::')[-2]
+            where = '%s:%s' % (rel(f['file']), loop.get('l'))
+            # what precedes the loop in the same block
+            par = ir.parents(f['body'])
+            blk = par.get(id(loop))
+            sibs = (blk.get('c') or []) if blk is not None else []
+            pre = sibs[:sibs.index(loop)] if loop in sibs else []
+            exp0 = None
+            k = 0
+            for st in pre:
+                for x in ir.walk(st):
+                    if x.get('k') == 'VarDecl' and x.get('n') == ev and x.get('init') is not None:
+                        exp0 = x['init']
+                    if x.get('k') == 'BinaryOperator' and x.get('op') == '=' and ir.show(x['c'][0]) == ev:
+                        exp0 = x['c'][1]
+                t = ir.show(st).replace(' ', '').replace('(', '').replace(')', '')
+                if t.startswith('base=_multiplybase,base'):
+                    k += 1
+            if exp0 is None:
+                raise AnalysisBroken('C10: the exponent of the idempotent power in %s::%s is not initialised before '
+                                     'the loop' % (cls, f['name']))
+            et = ir.show(exp0).replace(' ', '')
+            ok = (k == 0 and et.replace('(', '').replace(')', '') == 'p-1')
+            why = ''
+            if not ok:
+                cex = None
+                for prime in (2, 3, 5, 7, 11, 13):
+                    v = _fold(exp0, {'p': prime})
+                    if v is None:
+                        raise AnalysisBroken('C10: exponent `%s` of the idempotent power in %s::%s is not a closed '
+                                             'expression of p' % (et, cls, f['name']))
+                    if (2 ** k) * v != prime - 1:
+                        cex = (prime, (2 ** k) * v)
+                        break
+                if cex is None:
+                    raise AnalysisBroken('C10: the idempotent power in %s::%s starts from %d squaring(s) and exponent '
+                                         '`%s`: equal to p - 1 for the first primes, which is not a proof' %
+                                         (cls, f['name'], k, et))
+                why = ('the loop computes (Q/p)^(%s%s): for p = %d that is the power %d instead of p - 1 = %d, the '
+                       'partial identity of that prime is wrong (1 instead of an idempotent when the power is 0)'
+                       % ('%d*' % 2 ** k if k else '', et, cex[0], cex[1], cex[0] - 1))
+            chk.ob('E8-idempotent', '%s::%s raises Q/p to the power p - 1' % (cls, f['name']), where, ok, why,
+                   key='E8|%s::%s|idempotent-power' % (cls, f['name']))
+        for x in ir.walk(f['body']):
+            if ir.is_call(x) and (ir.call_name(x) or '').endswith('powm_ui'):
+                n += 1
+                cls = f.get('clsname') or f['qual'].split('::')[-2]
+                a = [ir.show(y).replace(' ', '').strip('()') for y in ir.call_args(x)]
+                ok = len(a) == 4 and a[2] == 'p-1'
+                chk.ob('E8-idempotent', '%s::%s raises Q/p to the power p - 1 (mpz_powm_ui)' % (cls, f['name']),
+                       '%s:%s' % (rel(f['file']), x.get('l')), ok, '' if ok else 'exponent argument `%s`' % a[2:3],
+                       key='E8|%s::%s|idempotent-power' % (cls, f['name']))
+    chk.expect_count('E8-idempotent', 'idempotent powers', n, 5)
